@@ -156,15 +156,29 @@ def eval_controlled(ctx, specs, props):
         if tr['build_error'] is not None:
             ctx.violation(case, {'why': f"a generated valid powertrain was rejected: {tr.get('build_msg')}"})
             continue
-        ctx.case_done(case, nontrivial=bool(spec['rules']) and n_inst(tr) >= 2)
-        ctx.count(f"rules {len(spec['rules'])}")
-        for rl in spec['rules']:
-            ctx.count('rule ' + rl['type'])
+        in_force = sim.rules_at(spec, tr)
+        owners = sim.owner_at(spec, tr)
+        all_sets = [sim.rules_of_op(spec, op) for op in spec['ops'] if op['op'] == 'run']
+        ctx.case_done(case, nontrivial=any(all_sets) and n_inst(tr) >= 2)
+        ctx.count('schedule ' + '+'.join(op['op'] for op in spec['ops']) + ('' if sim.uniform_rules(spec) else ' (control changes between runs)'))
+        for rs in all_sets:
+            ctx.count(f"rules {len(rs) if rs is not None else 'none'}")
+            for rl in rs or []:
+                ctx.count('rule ' + rl['type'])
         m = tr['motor']
         skipped = None
         states = states_of(tr)
         for j, st in enumerate(states):
-            outs = [rule_oracle(rl, st, tr) for rl in spec['rules']]
+            rules_j = in_force[j]
+            if rules_j is None:
+                # no controller during this run: the duty cycle keeps the value it had
+                own = owners[j]
+                prev = tr['els'][0]['pwm'][j - 1] if j > tr['ops'][own]['n_before'] else tr['ops'][own]['pwm_before']
+                if 'C14' in props and tr['els'][0]['pwm'][j] != prev:
+                    ctx.violation(case, {'why': f"instant {j}: no controller was passed to this run but the duty cycle changed from {prev} to {tr['els'][0]['pwm'][j]}"})
+                    break
+                continue
+            outs = [rule_oracle(rl, st, tr) for rl in rules_j]
             exp = arbitration_oracle(outs)
             got = tr['els'][0]['pwm'][j]
             if exp[0] == 'skip':
@@ -188,7 +202,7 @@ def eval_controlled(ctx, specs, props):
                     ctx.violation(case, {'why': f'instant {j}: duty cycle {got}, the rules\' documented windows/values give {exp[1]}', 'proposals': outs})
                     break
                 # while StartLimitCurrent is in force and not clipped the recorded current equals the limit
-                app = [(rl, o) for rl, o in zip(spec['rules'], outs) if o[0] == 'val']
+                app = [(rl, o) for rl, o in zip(rules_j, outs) if o[0] == 'val']
                 if len(app) == 1 and app[0][0]['type'] == 'limit' and -1 < app[0][1][1] < 1 and app[0][0]['tach'] % tr['n'] == 0:
                     ilim = sif('Current', app[0][0]['ilim'])
                     if ilim > m['i0'] * (1 + 1e-9) and m['i0'] > 0:
@@ -211,8 +225,9 @@ def eval_controlled(ctx, specs, props):
                 except Exception:  # noqa: BLE001
                     st = None
             ctx.count('run error ' + cls)
-            if st is not None:
-                outs = [rule_oracle(rl, st, tr) for rl in spec['rules']]
+            fail_rules = sim.rules_of_op(spec, spec['ops'][tr['error'][0]]) if spec['ops'][tr['error'][0]]['op'] == 'run' else None
+            if st is not None and fail_rules is not None:
+                outs = [rule_oracle(rl, st, tr) for rl in fail_rules]
                 exp = arbitration_oracle(outs)
                 ok = exp[0] in ('conflict', 'nan', 'skip') and cls in ('ValueError', 'ZeroDivisionError')
                 if not ok:
@@ -256,6 +271,33 @@ def run_controlled(ctx, props, quick=120, thorough=4000):
                               'brake': gen.in_unit(rng, 'Angle', rng.uniform(0.5, 6), True)}]
         op, _, _ = gen.run_op(rng, dt_si=dt, steps=(total, total), unit=rng.choice(['sec', 'sec', 'ms']))
         spec['ops'] = [op]
+        sched = rng.random()
+        if sched < 0.45:
+            # schedules: the controller is a parameter of each run — continue with another rule set or none,
+            # start without one, or reset and re-use the same rule objects
+            n2 = rng.randint(3, 8)
+            op2, _, _ = gen.run_op(rng, dt_si=dt, steps=(n2, n2), unit=rng.choice(['sec', 'sec', 'ms']))
+            other = rng.choice([None, 'gen', 'gen', 'same']) if sched < 0.26 else rng.choice([None, 'gen', 'same', 'same', 'same'])
+            if other == 'gen':
+                op2['rules'] = gen_rules(rng, spec, (total + n2) * dt, len(spec['elems']) + 1)
+            elif other is None:
+                op2['rules'] = None
+            if sched < 0.12:
+                op['rules'] = None          # free run first, controlled continuation
+                if 'rules' in op2 and op2['rules'] is None:
+                    del op2['rules']
+                spec['ops'] = [op, op2]
+            elif sched < 0.26:
+                spec['ops'] = [op, op2]
+            else:
+                spec['ops'] = [op, {'op': 'reset'}, {'op': 'init', 'pos': spec['init']['pos'], 'speed': spec['init']['speed']}, op2]
+                if other == 'same' and rng.random() < 0.6:
+                    # the same timer-based rule objects before and after the reset: their windows restart with the time axis
+                    rules = gen.const_rules(rng, total * dt, random_units=True)
+                    if not rules:
+                        rules = [{'type': 'const', 'start': [0.0, 'sec'], 'dur': gen.time_qty(rng, 'TimeInterval', gen.dy(rng, 0.0625, total * dt / 2, 4), True),
+                                  'value': rng.choice([0, -1, gen.dy(rng, -1, 1, 3)])}]
+                    spec['rules'] = rules
         specs.append(spec)
     for i in range(0, len(specs), 200):
         eval_controlled(ctx, specs[i:i + 200], props)
